@@ -20,7 +20,7 @@ var c13Pools = map[string][]string{
 	"numbers": {"1", "1.0", "01", "1e0", "-0", "0", "9", "10", "1a", "2", "10.5", "-3", "abc", "nan", "Inf", "0x10", "007", "7", "1e3", "1000"},
 	"names":   {"Monday", "mon", "Tue", "tues", "WED", "thursday", "Fri", "sat", "Sunday", "may", "Jan", "december", "Sept", "xyz", "10", "MON", "feb"},
 	"dates":   {"2021-01-02", "2021-01-10", "2020-12-31", "01/02/2021", "notadate", "2021-02-01T10:00:00Z", "2021-01-02T03:04:05Z", "Jan-2-2021", "12/31/2020", "2021-1-3"},
-	"text":    {"b", "B", "a", "Z", "é", "aa", "ab", "A", "_", "~"},
+	"text":    {"b", "B", "a", "Z", "é", "aa", "ab", "A", "_", "~", "GET", "get", "Get", "AB"},
 }
 
 var c13PoolNames = []string{"numbers", "names", "dates", "text"}
@@ -33,11 +33,12 @@ type c13Scenario struct {
 	Counts []int
 	Cols   []string // table: column keys
 	Pool   string
+	TopN   int // histo -n (0: show everything)
 }
 
 func c13Gen(t *simrt.Tape) *c13Scenario {
 	sc := &c13Scenario{}
-	sc.Cmd = []string{"histo", "histo", "table", "bars", "heatmap", "spark"}[t.W(6)]
+	sc.Cmd = []string{"histo", "histo", "table", "bars", "heatmap", "spark", "bars2", "histo-large"}[t.W(8)]
 	sc.Sort = []string{"text", "numeric", "contextual", "date", "value"}[t.W(5)]
 	sc.Mod = []string{"", "", ":asc", ":desc", ":reverse"}[t.W(5)]
 	// the pool follows the sort mode most of the time, so that the comparators see what they are made for
@@ -80,9 +81,25 @@ func c13Gen(t *simrt.Tape) *c13Scenario {
 		}
 		return out
 	}
+	if sc.Cmd == "histo-large" {
+		// many groups and a small -n: the top-N selection must not depend on map order either
+		sc.Cmd = "histo"
+		n := t.WRange(128, 220)
+		for i := 0; i < n; i++ {
+			sc.Keys = append(sc.Keys, fmt.Sprintf("k%03d", i))
+			sc.Counts = append(sc.Counts, 1+t.W(3))
+		}
+		sc.TopN = t.WRange(3, n/8)
+		sc.Pool = "synthetic"
+		return sc
+	}
 	sc.Keys = pick(t.WRange(2, 8))
 	for range sc.Keys {
 		sc.Counts = append(sc.Counts, 1+t.W(3))
+	}
+	if sc.Cmd == "bars2" {
+		// sub-keys: their order in the legend is kept sorted on insertion and must not depend on arrival
+		sc.Cols = pick(t.WRange(2, 5))
 	}
 	if sc.Cmd == "table" || sc.Cmd == "heatmap" || sc.Cmd == "spark" {
 		sc.Cols = pick(t.WRange(2, 5))
@@ -121,7 +138,15 @@ func (sc *c13Scenario) scenario(sortArg string, t *simrt.Tape, shuffle []int) *c
 	case "histo":
 		out.Regex = `^(.*)$`
 		out.Tpls = []c3Tpl{{{Grp: 1}}}
-		out.Flags = append(common, "histo", "-n", "1000", "--sort", sortArg)
+		n := "1000"
+		if sc.TopN > 0 {
+			n = fmt.Sprint(sc.TopN)
+		}
+		out.Flags = append(common, "histo", "-n", n, "--sort", sortArg)
+	case "bars2":
+		out.Regex = `^([^\t]*)\t([^\t]*)$`
+		out.Tpls = []c3Tpl{{{Grp: 2}}, {{Grp: 1}}}
+		out.Flags = append(append([]string{"--nounicode"}, common...), "bars", "--stacked", "--sort", sortArg)
 	case "bars":
 		out.Regex = `^(.*)$`
 		out.Tpls = []c3Tpl{{{Grp: 1}}}
@@ -166,6 +191,21 @@ func (sc *c13Scenario) labels(stdout string) (rows, cols []string, err error) {
 				return nil, nil, fmt.Errorf("cannot parse bar line %q", l)
 			}
 			rows = append(rows, m[1])
+		}
+	case "bars2":
+		if len(body) == 0 {
+			return nil, nil, nil
+		}
+		hdr := strings.Fields(body[0])
+		for i := 1; i < len(hdr); i += 2 {
+			cols = append(cols, hdr[i])
+		}
+		for _, l := range body[1:] {
+			f := strings.Fields(l)
+			if len(f) == 0 {
+				return nil, nil, fmt.Errorf("cannot parse bar line %q", l)
+			}
+			rows = append(rows, f[0])
 		}
 	case "heatmap", "spark":
 		// heatmap: legend line + compressed column header; spark: one header line. Only the row labels are
@@ -265,8 +305,12 @@ func init() {
 				rc.Violate("HARNESS-parse", "%v\n%q\n%v", err, o.Stdout, desc)
 				return run{}, false
 			}
-			if len(rows) != len(sc.Keys) {
-				rc.Violate("HARNESS-rows", "%d rows parsed for %d keys\n%q\n%v", len(rows), len(sc.Keys), o.Stdout, desc)
+			wantRows := len(sc.Keys)
+			if sc.TopN > 0 && sc.TopN < wantRows {
+				wantRows = sc.TopN
+			}
+			if len(rows) != wantRows {
+				rc.Violate("HARNESS-rows", "%d rows parsed, expected %d\n%q\n%v", len(rows), wantRows, o.Stdout, desc)
 				return run{}, false
 			}
 			return run{v: v, rows: rows, cols: cols, sortArg: sa}, true
@@ -308,7 +352,7 @@ func init() {
 			}
 		}
 		// relations between spellings, on the parameters of variant 0
-		if len(rc.Viol) == 0 {
+		if len(rc.Viol) == 0 && sc.TopN == 0 { // with -n the reversed sort shows the other end, not a mirror
 			rev := sc.Sort + ":reverse"
 			same := ""
 			switch {
@@ -328,7 +372,11 @@ func init() {
 				same = sc.Sort + ":asc"
 			}
 			if r, ok := exec(rev, base.v, nil); ok {
-				if strings.Join(c13Reverse(r.rows), "\x00") != strings.Join(base.rows, "\x00") || strings.Join(c13Reverse(r.cols), "\x00") != strings.Join(base.cols, "\x00") {
+				wantCols := c13Reverse(r.cols)
+				if sc.Cmd == "bars2" {
+					wantCols = r.cols // the legend's sub-key order is not governed by --sort
+				}
+				if strings.Join(c13Reverse(r.rows), "\x00") != strings.Join(base.rows, "\x00") || strings.Join(wantCols, "\x00") != strings.Join(base.cols, "\x00") {
 					rc.Violate("reverse-not-mirror", "sort=%s keys=%s cmd=%s: `%s` shows rows %q cols %q, `%s` shows rows %q cols %q: not mirror images\nvariant: %s\nscenario: %v", sortArg, keysKind, sc.Cmd, sortArg, base.rows, base.cols, rev, r.rows, r.cols, base.v, desc)
 				}
 			}
